@@ -88,6 +88,12 @@ def gen_cell(g, k, tier):
         else:
             cfg["opts"] = {"adaptive": True, "target_efficiency": 0.6}
     cfg["leak"] = leak
+    c0 = t.coords[0]
+    if c0.kind == "box" and g.random() < 0.25 and sampler != "blackjax_smc":
+        # likelihood with a hard cut inside the prior support (zero-weight particles); truth: gaussian truncated to [cut, hi]
+        cut = float(c0.mu - g.uniform(0.0, 1.2) * c0.s)
+        if c0.lo < cut < c0.hi:
+            cfg["cut_below"] = cut
     return cfg, t
 
 
@@ -122,7 +128,7 @@ def one_replicate(cfg, t, rep_seed):
         import jax
 
         jax.clear_caches()  # every run jit-compiles fresh closures; do not let the executables pile up
-    stats = {"z": math.exp(logz - t.log_z())}
+    stats = {"z": math.exp(logz - truth_target(cfg, t)[1])}
     for j, cdesc in enumerate(t.coords):
         if cdesc.kind == "box":
             m = float(np.sum(w * x[:, j]))
@@ -133,6 +139,16 @@ def one_replicate(cfg, t, rep_seed):
             stats[f"sin{j}"] = float(np.sum(w * np.sin(x[:, j] - cdesc.mu)))
     ess = 1.0 / float(np.sum(w**2))
     return stats, A, ess
+
+
+def truth_target(cfg, t):
+    """(target whose closed forms are the truth, log of the true evidence)."""
+    cut = cfg.get("cut_below")
+    if cut is None:
+        return t, t.log_z()
+    c0 = t.coords[0]
+    tt = Target([Coord("box", cut, c0.hi, c0.mu, c0.s)] + list(t.coords[1:]))
+    return tt, tt.log_z() + math.log((c0.hi - cut) / (c0.hi - c0.lo))
 
 
 def truths(t):
@@ -157,7 +173,7 @@ def stage(cfg, t, R, base_seed, counters):
         reps.append(st)
         esss.append(ess)
         counters["replicates"] += 1
-    tr, sc = truths(t)
+    tr, sc = truths(truth_target(cfg, t)[0])
     N = cfg["n"]
     out = {}
     for k in tr:
@@ -212,7 +228,7 @@ def run_case(case):
     base = int(g.integers(1, 10**8))
     res, A = stage(cfg, t, R, base, counters)
     counters["statistics_judged"] += len(res)
-    shown = {"sampler": cfg["sampler"], "xp": cfg["xp"], "n": cfg["n"], "opts": cfg["opts"], "precond": cfg["precond"], "flow": cfg["flow"], "target": t.describe()["coords"], "A": round(A, 4)}
+    shown = {"sampler": cfg["sampler"], "xp": cfg["xp"], "n": cfg["n"], "opts": cfg["opts"], "precond": cfg["precond"], "flow": cfg["flow"], "cut_below": cfg.get("cut_below"), "target": t.describe()["coords"], "A": round(A, 4)}
     where = f"{shown}"
     labels1 = classify(cfg, res, A)
     final = res
